@@ -210,7 +210,9 @@ fn path_case() -> BoxedStrategy<PathCase> {
 
 // ------------------------------------------------------------------ mounts
 
-const SEG_TOKENS: [&str; 10] = ["a", "b", "", "0", "x/y", "m~n", "~", "~~", "//", "exact"];
+// (index 9 is the exactly registered route's name; 10.. are tokens whose escaped form
+// contains "~01", which decodes correctly only if "~1" is handled before "~0")
+const SEG_TOKENS: [&str; 13] = ["a", "b", "", "0", "x/y", "m~n", "~", "~~", "//", "exact", "~1", "a~1b", "~0"];
 const ROOT_TOKENS: [&str; 4] = ["api", "v1", "a", "st"];
 
 #[derive(Debug, Clone, Serialize, Deserialize, Hash, PartialEq, Eq)]
@@ -465,7 +467,7 @@ pub fn check_mounts(c: &MountCase) -> CheckResult {
 
 fn seg_tokens() -> BoxedStrategy<Vec<u8>> {
     // token index 9 ("exact") excluded from random segment lists so Under never hits the exact route by accident... unless alone
-    let tok = 0u8..9;
+    let tok = prop_oneof![5 => 0u8..9, 2 => 10u8..13];
     prop_oneof![
         3 => prop::collection::vec(tok.clone(), 0..4),
         2 => prop::collection::vec(tok.clone(), 4..14),
@@ -529,7 +531,10 @@ pub fn fuzz_targets() -> Vec<crate::fuzz::Target> {
     use crate::fuzz::{U, from_bytes};
     fn toks(u: &mut U) -> Vec<u8> {
         // same token alphabet as `seg_tokens` (index 9, the exact route's name, excluded)
-        u.vec(40, |u| u.below(9) as u8)
+        u.vec(40, |u| {
+            let t = u.below(12) as u8;
+            if t >= 9 { t + 1 } else { t }
+        })
     }
     vec![from_bytes(
         "c07_mounts",
